@@ -251,9 +251,12 @@ Record fenv := mk_fenv {
   fe_alias : aliases;                                             (* function_signature_aliases *)
   fe_defs : list (ident * list (list ty * fdef));                 (* function_defs *)
   fe_calls : list (ident * list (list ty));                       (* function_call_signatures *)
-  fe_primary : list (ident * list ty)                             (* function_primary_signature *)
+  fe_primary : list (ident * list ty);                            (* function_primary_signature *)
+  fe_err : bool                                                   (* a ValueError was raised inside an on-demand variant parse *)
 }.
-Definition fenv0 : fenv := mk_fenv [] [] [] [] [] [].
+Definition fenv0 : fenv := mk_fenv [] [] [] [] [] [] false.
+Definition set_err (fe : fenv) : fenv :=
+  mk_fenv (fe_src fe) (fe_F fe) (fe_alias fe) (fe_defs fe) (fe_calls fe) (fe_primary fe) true.
 
 Fixpoint aset {A} (l : list (ident * A)) (k : ident) (v : A) : list (ident * A) :=
   match l with
@@ -303,7 +306,7 @@ Definition parse_function_core (C : option ictx) (fe : fenv) (cur : dctx) (name 
           let d := mk_fdef (map (fun pt => (fst (fst pt), cpp_type (snd pt))) (combine params final))
                            (cpp_type merged) (st_decls st1) in
           let defs := aset (fe_defs fe) name (sset (get_or [] (tlookup name (fe_defs fe))) final d) in
-          Some (mk_fenv (aset (fe_src fe) name src) (aset F0 name (FVariants vs2)) al defs (fe_calls fe) (fe_primary fe),
+          Some (mk_fenv (aset (fe_src fe) name src) (aset F0 name (FVariants vs2)) al defs (fe_calls fe) (fe_primary fe) (fe_err fe),
                 share_back (d_promo cur) (d_promo (st_ctx st1)), final)
       end
   end.
@@ -332,7 +335,7 @@ Definition parse_def (C : option ictx) (fe : fenv) (cur : dctx) (name : ident) (
   | None => None
   | Some (fe1, p1, final) =>
       let fe2 := mk_fenv (fe_src fe1) (fe_F fe1) (fe_alias fe1) (fe_defs fe1) (fe_calls fe1)
-                         (aset (fe_primary fe1) name final) in
+                         (aset (fe_primary fe1) name final) (fe_err fe1) in
       fold_left (fun acc0 requested =>
                    match acc0 with
                    | None => None
@@ -344,16 +347,16 @@ Definition parse_def (C : option ictx) (fe : fenv) (cur : dctx) (name : ident) (
   end.
 
 (* the user-function step of _infer_expr_type when ctx is given (lines 1111-1132).
-   A ValueError inside the on-demand parse aborts the whole parse; the model keeps the
-   state and lets the lookup fall through (generated programs never reach this). *)
+   A ValueError inside the on-demand parse aborts the whole parse: recorded in [fe_err],
+   which [run_item] turns into a rejection. *)
 Definition call_dyn (C : option ictx) (declared : list ident) (sp : fenv * option pmap) (G : tenv)
   (f : ident) (sg : list ty) : (fenv * option pmap) * option ty :=
   let '(fe, p) := sp in
   let recorded := get_or [] (tlookup f (fe_calls fe)) in
   let calls := if existsb (sig_eqb sg) recorded then (match tlookup f (fe_calls fe) with Some _ => fe_calls fe | None => aset (fe_calls fe) f [] end)
                else aset (fe_calls fe) f (recorded ++ [sg]) in
-  let fe1 := mk_fenv (fe_src fe) (fe_F fe) (fe_alias fe) (fe_defs fe) calls (fe_primary fe) in
-  let '(fe2, p2) := get_or (fe1, p) (ensure_variant C fe1 (mk_dctx G declared p) f sg) in
+  let fe1 := mk_fenv (fe_src fe) (fe_F fe) (fe_alias fe) (fe_defs fe) calls (fe_primary fe) (fe_err fe) in
+  let '(fe2, p2) := get_or (set_err fe1, p) (ensure_variant C fe1 (mk_dctx G declared p) f sg) in
   ((fe2, p2), resolve_call (fe_F fe2) (fe_alias fe2) f sg).
 
 (* ---- whole programs ---- *)
@@ -374,12 +377,16 @@ Definition run_item (C : option ictx) (ps : pstate) (it : item) : option pstate 
   | IStmt s =>
       match run_stmt fenv (call_dyn C) C (p_fe ps) (mk_bstate (p_ctx ps) (p_globals ps) (mk_acc (p_labels ps) [] false)) s with
       | None => None
-      | Some (fe1, st1) => Some (mk_pstate fe1 (st_ctx st1) (st_decls st1) (p_loop ps) (a_labels (st_acc st1)))
+      | Some (fe1, st1) =>
+          if fe_err fe1 then None
+          else Some (mk_pstate fe1 (st_ctx st1) (st_decls st1) (p_loop ps) (a_labels (st_acc st1)))
       end
   | ILoop b =>
       match run_block fenv (call_dyn C) C (p_fe ps) (mk_bstate (p_ctx ps) (p_loop ps) (mk_acc (p_labels ps) [] false)) b with
       | None => None
-      | Some (fe1, st1) => Some (mk_pstate fe1 (st_ctx st1) (p_globals ps) (st_decls st1) (a_labels (st_acc st1)))
+      | Some (fe1, st1) =>
+          if fe_err fe1 then None
+          else Some (mk_pstate fe1 (st_ctx st1) (p_globals ps) (st_decls st1) (a_labels (st_acc st1)))
       end
   | IDef name src =>
       match parse_def C (p_fe ps) (p_ctx ps) name src with
